@@ -210,6 +210,14 @@ impl Session {
             (None, None) => unreachable!("Checked in the first match above"),
         };
 
+        #[cfg(feature = "verif-hooks")]
+        crate::verif::log_session_keys(
+            local_id,
+            remote_id,
+            false,
+            &keys.encryption_key,
+            &keys.decryption_key,
+        );
         Ok((Session::new(keys), session_enr))
     }
 
@@ -263,6 +271,14 @@ impl Session {
 
         packet.message = message_ciphertext;
 
+        #[cfg(feature = "verif-hooks")]
+        crate::verif::log_session_keys(
+            local_node_id,
+            &remote_contact.node_id(),
+            true,
+            &keys.encryption_key,
+            &keys.decryption_key,
+        );
         let session = Session::new(keys);
 
         Ok((packet, session))
